@@ -1,5 +1,6 @@
 import Amgcl.Properties.C02c
 import Amgcl.Proofs.BridgeSkyline
+import Amgcl.Proofs.BridgeMMatrix
 /-!
 # C02, part d: the convergence theorem with the model's own coarse solver (skyline LU) plugged in
 
@@ -54,6 +55,52 @@ theorem model_amg_skyline_spd_contracting (r : RealSmoother K) (hr : r.NormOK) (
     A hA hsq hAnd hspd ls hb hQ
 
 
+/-! ## M-matrix input: the hypothesis on the coarse level matrices is derived -/
+
+/-- the Galerkin operator of a Z-matrix with non-negative row sums under an aggregation matrix (rows zero or unit
+vectors) is again such a matrix, and such matrices are weakly diagonally dominant -/
+theorem zrow_galerkin {n m : ℕ} {A : Matrix (Fin n) (Fin n) K} (h : ZRow A) {P : Matrix (Fin n) (Fin m) K}
+    (hP : IsAgg P) : ZRow (Pᵀ * A * P) ∧ WeakDD (Pᵀ * A * P) := ⟨h.galerkin hP, (h.galerkin hP).weakDD⟩
+
+/-- every level matrix of the hierarchy that the model constructor builds with the plain-aggregation model is a Z-matrix
+with non-negative row sums if the fine matrix is -/
+theorem aggregation_levels_zrow {S : Type} (sm : Smoother K S) (norm : K → K) (aprm : AggrParams K)
+    (hbs : aprm.blockSize = 1) (hma : aprm.minAggregate ≤ 1) (nt : Nat) (prm : Params) (directOk : CRS K → Bool)
+    (A : CRS K) (hA : A.WF) (hsq : A.ncols = A.nrows) (hz : ZRow (Bridge.matOf A A.nrows A.nrows))
+    (ls : List (Level K S)) (hb : build prm (aggregationPolicy norm aprm nt 1) sm directOk A = .ok ls) :
+    LevelMatrices (fun _ M => ZRow M) ls := by
+  have hc := C03.build_chain prm _ sm directOk A ls hb
+  refine Chain.levels_zrow (policyOK_aggregation norm aprm hbs hma nt) (policyAgg_aggregation norm aprm hbs hma nt 1)
+    hc (sortRows_wf' A hA) (by rw [Amg.sortRows_ncols, Amg.sortRows_nrows]; exact hsq) ?_
+  rw [Amg.sortRows_nrows, matOf_sortRows]; exact hz
+
+/-- **C02 for M-matrix input, nothing assumed of the coarse levels**: `A` SPD, off-diagonal entries `≤ 0`, row sums
+`≥ 0`; plain aggregation + Gauss–Seidel / damped Jacobi (`0 < ω < 1`) / SPAI-0 + skyline LU, all inside the model of the
+constructor: the preconditioner is SPD and the stationary iteration contracts in the `A`-norm. -/
+theorem model_amg_mmatrix_spd_contracting (r : RealSmoother K) (hr : r.NormOK) (hp : r.proved.ParamOK)
+    (norm : K → K) (aprm : AggrParams K) (hbs : aprm.blockSize = 1) (hma : aprm.minAggregate ≤ 1) (nt : Nat)
+    (prm : Params) (hnu : prm.npre = prm.npost) (hs : 0 < prm.npre) (hcy : 0 < prm.ncycle) (hpc : 0 < prm.pre_cycles)
+    (perm : CRS K → Array Nat) (hperm : ∀ Ad : CRS K, PermOn Ad.nrows (perm Ad))
+    (A : CRS K) (hA : A.WF) (hsq : A.ncols = A.nrows) (hAnd : A.nodupb = true)
+    (hspd : IsSPD (Bridge.matOf A A.nrows A.nrows)) (hz : ZRow (Bridge.matOf A A.nrows A.nrows))
+    (ls : List (Level K r.State))
+    (hb : build prm (aggregationPolicy norm aprm nt 1) r.model (skylineBuilt perm) A = .ok ls) :
+    ∃ B : Matrix (Fin A.nrows) (Fin A.nrows) K, IsSPD B ∧
+      Contr (Bridge.matOf A A.nrows A.nrows) (1 - B * Bridge.matOf A A.nrows A.nrows) ∧
+      (∀ (scr : List (Scratch K)) (f : Vec K), scr.length = ls.length → f.size = A.nrows →
+        vecOf A.nrows (apply prm r.model (skylineDirect perm) ls scr f).1 = B *ᵥ vecOf A.nrows f) ∧
+      (∀ {u v : Fin A.nrows → K}, u ≠ 0 ∨ v ≠ 0 → ∀ {a b : K},
+        (1 - B * Bridge.matOf A A.nrows A.nrows) *ᵥ u = a • u - b • v →
+        (1 - B * Bridge.matOf A A.nrows A.nrows) *ᵥ v = b • u + a • v → a ^ 2 + b ^ 2 < 1) := by
+  have hz' := aggregation_levels_zrow r.model norm aprm hbs hma nt prm (skylineBuilt perm) A hA hsq hz ls hb
+  have hQ : LevelMatrices r.proved.Q ls := by
+    cases r with
+    | gaussSeidel => exact levelMatrices_true ls
+    | dampedJacobi ω => exact hz'.mono fun n M h => h.weakDD
+    | spai0 nrm => exact hz'.mono fun n M h => h.weakDD
+  exact model_amg_skyline_spd_contracting r hr hp norm aprm hbs hma nt prm hnu hs hcy hpc perm hperm A hA hsq hAnd hspd
+    ls hb hQ
+
 /-! ### non-vacuity: 4-point Laplacian, `coarse_enough = 2`: levels `4 → 2`, the `2 × 2` coarse system `[[2,-1],[-1,2]]`
 is factorised by the skyline LU model (identity ordering), W-cycle with 2+2 Gauss–Seidel sweeps -/
 
@@ -87,5 +134,27 @@ example : ∃ ls, build exPrm Ex.pol Ex.smGS.model (skylineBuilt idPerm) Ex.A4c 
       exPrm rfl (by decide) (by decide) (by decide) idPerm idPerm_permOn
       Ex.A4c Ex.A4c_wf Ex.A4c_sq Ex.A4c_nodup Ex.A4c_spd ls hb (levelMatrices_true ls)
     exact ⟨ls, rfl, B, h1, h2, h3⟩
+
+theorem ex_zrow : ZRow (Bridge.matOf Ex.A4c Ex.A4c.nrows Ex.A4c.nrows) := by
+  show ZRow (Bridge.matOf Ex.A4c 4 4)
+  rw [Ex.mat_A4c]
+  refine ⟨fun i j hij => ?_, fun i => ?_⟩
+  · fin_cases i <;> fin_cases j <;> simp_all [Energy.Example.A4]
+  · fin_cases i <;> simp [Energy.Example.A4, Fin.sum_univ_four] <;> norm_num
+
+theorem ex_build_ok_jac : (build exPrm Ex.pol Ex.smJac.model (skylineBuilt idPerm) Ex.A4c).toBool = true := by
+  decide +kernel
+
+/-- damped Jacobi (`ω = 18/25`) on the M-matrix input: no hypothesis on the coarse level is supplied -/
+example : ∃ ls, build exPrm Ex.pol Ex.smJac.model (skylineBuilt idPerm) Ex.A4c = .ok ls ∧
+    ∃ B : Matrix (Fin 4) (Fin 4) ℚ, IsSPD B ∧ Contr (Bridge.matOf Ex.A4c 4 4) (1 - B * Bridge.matOf Ex.A4c 4 4) := by
+  have hok := ex_build_ok_jac
+  cases hb : build exPrm Ex.pol Ex.smJac.model (skylineBuilt idPerm) Ex.A4c with
+  | error e => rw [hb] at hok; cases hok
+  | ok ls =>
+    obtain ⟨B, h1, h2, -, -⟩ := model_amg_mmatrix_spd_contracting Ex.smJac trivial (by constructor <;> norm_num) _
+      Ex.aprm rfl (by decide) 1 exPrm rfl (by decide) (by decide) (by decide) idPerm idPerm_permOn
+      Ex.A4c Ex.A4c_wf Ex.A4c_sq Ex.A4c_nodup Ex.A4c_spd ex_zrow ls hb
+    exact ⟨ls, rfl, B, h1, h2⟩
 
 end Amgcl.C02d
